@@ -75,12 +75,23 @@ JOBS["C12"] = [
     I("partialcache", "internal/chain/beacon", "^TestVerifC12PartialCache$", {"shards": 4, "checks": 60, "timeout": 1200}, {"shards": 14, "checks": 1500, "timeout": 3400}),
 ]
 
+JOBS["C06"] = [
+    H("firstdkg", "dkgnet", "^TestC06FirstDKG$", {"shards": 8, "checks": 5, "timeout": 1500}, {"shards": 14, "checks": 120, "timeout": 3400}),
+    H("reshare", "dkgnet", "^TestC06Reshare$", {"shards": 8, "checks": 5, "timeout": 1500}, {"shards": 14, "checks": 120, "timeout": 3400}),
+]
+
 LEVELS = {"C13": "fault_enumeration"}
 
 _MACHINE = ("rapid state machine over a network of real beacon handlers: scheme in 5, n in 2..6, t in [n/2+1,n], back-end in {memdb (cap 2000 or 10), bolt trimmed, bolt untrimmed}, period 2..6 s; "
             "actions: tick, sub-period advance, burst of 2-6 periods, advance of a subset (skew/stall), realign, partition/heal, queue mode with generated delivery order and drops, duplicate mode, stop/restart (same or fresh store), "
             "forged partial injection (12 kinds incl. valid-for-clock+k), scripted lying sync peer (13 kinds), sync-stream tap. ")
 RULES = {
+    "C06": "real dkg.Process instances (real bolt dkg.db each) on an in-memory DKGClient bus. first DKG: scheme in 5, n in 1..7 (n=1 must be refused cleanly), t in [n/2+1,n], drawn permutation of the participant list handed to the leader, drawn leader, "
+           "beacon period in {1,3,30} s. reshare: on top of a completed epoch written by the harness (its own polynomial): n0 in 2..6, 0..n0-t0 leavers, 0..3 joiners, new threshold in range, every list permuted, leader among the remainers. "
+           "Delivery policy per case: per-message delay up to 5/40/150 ms (reordering), duplicates, one slow node (all its traffic +100/400/900 ms), transient failure of gossip sends (retried by the sender); message loss of DKG bundles is not generated "
+           "(outside the quantifier). Oracle over all finishers: field-wise equal groups + equal hash, threshold as proposed, share index = own entry in the group = rank of the public key (independent of listing order), g^share on the public polynomial "
+           "(harness arithmetic), 6 random t-subsets recover a signature that verifies under the group key and t-1 do not, epoch 1: genesis seed = hash of the first group; reshare: same public key and chain hash, leavers keep their record; "
+           "positive control: every member finishes. Non-trivial: n>=3 with a non-identity permutation or a perturbing delivery policy (first DKG); every reshare. Distinct by full case descriptor.",
     "C12": "(a) a beacon.NewCallbackStore over {trimmed bolt, untrimmed bolt, memdb ring} with 0-3 hostile consumers attached through the real SyncChain (Send blocks for ever / sleeps 2-20 ms / fails once / context cancelled mid-send), "
            "one healthy consumer and one internal callback; then M appends with M in 1..3*CallbackWorkerQueue, forced to 2*queue+2.. in 2/3 of the cases, optionally a re-connect of the stalled client's address half-way. Oracle: every Put and Last returns "
            "(bound 2 s, re-examined for 8 s more before it counts; normal < 5 ms), the healthy consumer and the internal callback receive all M beacons in order. (b) in-package rapid state machine on partialCache: appends by 3-7 signers over a "
@@ -138,6 +149,7 @@ RULES = {
 }
 
 ASSUMPTIONS = {
+    "C06": ["kyber's Pedersen DKG is sound under reliable (possibly slow, reordering, duplicating) delivery", "DKG randomness comes from crypto/rand: cases are reproducible in structure, not in key bytes", "phase timeout 2 s, kick-off grace 250 ms (real time)"],
     "C12": ["consumer stalls are modelled at SyncStream.Send (HTTP/2 flow control and grpc.MaxConcurrentStreams not involved)", "appends are paced so that a consumer that keeps up is at most 20 rounds behind (a beacon chain appends once per period)", "process RSS not measured; bounds are on the cache structures"],
     "C11": ["streams are driven at the SyncChain/SyncStream interface (gRPC transport not involved)", "for the ring back-end the generator does not evict a round a scanning stream has not sent yet (it no longer exists)"],
     "C10": ["fewer than t colluding members (group-signed forgeries are out of scope for repair)", "follow mode through the control API is not exercised by this check (participant mode + check/repair only)", "in-memory back-end: only missing rounds are in scope for repair (the ring keeps old values by design)"],
